@@ -284,3 +284,77 @@ def measurement_stage_checks(seed):
     if len(set(supports)) != len(supports):
         fails.append(('Independent', 'measurement_stage', dict(supports=supports)))
     return fails
+
+
+def posterior_law_checks(seed, n=1200):
+    """stage 3 (spec: Predictive!PosteriorLaw, AveragedLaw): which posterior rows are drawn, and how often.
+    A coded posterior with 3 chains x 4 draws x 3 individuals (every row distinguishable) is sampled n times;
+    every (chain, draw) row of the selected individual must be reachable and the counts must be compatible with
+    the uniform law over all chains * draws rows; for the averaged model the member models must be chosen with
+    the stated weights (2 : 1) and rows uniformly within each.  Tests are two-sided at level 1e-9 (seeded, so
+    deterministic for a given --seed): they reject structural errors (a chain never drawn, weights ignored),
+    not sampling noise."""
+    from scipy import stats
+    fails = []
+    rng = np.random.default_rng([seed, 77])
+    nch, ndr = 3, 4
+    ids = ['a', 'b', 'c']
+    tag = 'prlaw'
+    pm = chi.PredictiveModel(probes.ProbeMech(2, 1, tag=tag), [chi.GaussianErrorModel()])
+    names = pm.get_parameter_names()
+    post = coded_posterior(names, ids, nch=nch, ndr=ndr)
+    post2 = post.copy(deep=True)
+    for nme in names:
+        post2[nme] = post2[nme] + 50000          # rows of the second member model are recognisable
+    crit = stats.chi2.isf(1e-9, nch * ndr - 1)
+
+    def rows_of(sims, who):
+        out = []
+        for ev in sims:
+            codes = [int(round(v)) for v in ev[1]]
+            c0 = codes[0]
+            model = 2 if c0 >= 50000 else 1
+            c0 -= 50000 * (model - 1)
+            if c0 % 10 != ids.index(who) + 1:
+                fails.append(('JointRow', 'wrong_individual', dict(codes=codes, individual=who)))
+                return None
+            out.append((model, (c0 // 100) % 10, (c0 // 10) % 10))
+        return out
+
+    def uniform(rows, what):
+        cnts = np.array([[sum(1 for r in rows if r[1:] == (c + 1, d + 1)) for d in range(ndr)] for c in range(nch)])
+        if np.any(cnts == 0):
+            fails.append(('PosteriorLaw', 'row_never_drawn', dict(model=what, counts=cnts.tolist(), n=len(rows))))
+            return
+        e = len(rows) / float(nch * ndr)
+        stat = float(np.sum((cnts - e) ** 2 / e))
+        if stat > crit:
+            fails.append(('PosteriorLaw', 'rows_not_uniform', dict(model=what, counts=cnts.tolist(), chi2=stat, critical=crit)))
+    try:
+        with warnings.catch_warnings():
+            warnings.simplefilter('ignore')
+            who = ids[int(rng.integers(3))]
+            ppm = chi.PosteriorPredictiveModel(pm, post)
+            probes.clear(tag)
+            ppm.sample([1.0, 0.5], n_samples=n, individual=who, seed=int(rng.integers(1000)))
+            rows = rows_of([e for e in probes.log_of(tag) if e[0] == 'simulate'], who)
+            if rows is not None:
+                if len(rows) != n:
+                    fails.append(('JointRow', 'n_simulations', dict(got=len(rows), expected=n)))
+                uniform(rows, 'posterior')
+            pam = chi.PAMPredictiveModel([ppm, chi.PosteriorPredictiveModel(pm, post2)], weights=[2, 1])
+            probes.clear(tag)
+            pam.sample([1.0, 0.5], n_samples=n, individual=who, seed=int(rng.integers(1000)))
+            rows = rows_of([e for e in probes.log_of(tag) if e[0] == 'simulate'], who)
+            if rows is not None:
+                n1 = sum(1 for r in rows if r[0] == 1)
+                lo, hi = stats.binom.ppf([5e-10, 1 - 5e-10], len(rows), 2.0 / 3.0)
+                if len(rows) != n or not (lo <= n1 <= hi):
+                    fails.append(('AveragedLaw', 'weights', dict(n=len(rows), from_first_model=n1, accepted=[float(lo), float(hi)])))
+                for m in (1, 2):
+                    sub = [r for r in rows if r[0] == m]
+                    if len(sub) >= 300:        # (11/12)^300 < 1e-11: a row left out by chance is not a concern
+                        uniform(sub, 'averaged member %d' % m)
+    except Exception as e:
+        fails.append(('Evaluable', type(e).__name__, repr(e)))
+    return fails
